@@ -171,7 +171,7 @@ def conclude(prop, pack, pack_name, a, seed, t0, results, params_of, extra_cov=N
         rp = driver.replay(pack_name, hname, params, model)
         # the counter-model is a failing input if it makes this or any other obligation of the harness fail natively
         # (kernel preconditions, e.g., are only visible natively as the real kernel raising)
-        confirmed = name in rp['failed'] or (bool(rp['failed']) and name.startswith('kernel-pre:'))
+        confirmed = name in rp['failed'] or bool(rp['failed'])
         kf = known_match(prop, oid, known)
         rel = os.path.join('replays', prop, slug(oid) + '.json')
         rec = {
